@@ -55,6 +55,9 @@ EdgeSections == {"bonds", "constraints"}
 (* generic helpers                                                    *)
 (* ------------------------------------------------------------------ *)
 MaxOf(a, b) == IF a < b THEN b ELSE a
+\* With(v, F): F(v) with v evaluated exactly once (TLC does not reliably cache LET definitions that are used inside
+\* lazily evaluated function constructors; a bound variable always holds a value)
+With(v, F(_)) == CHOOSE r \in {F(x) : x \in {v}} : TRUE
 RECURSIVE SumTo(_, _)
 SumTo(f, n) == IF n = 0 THEN 0 ELSE f[n] + SumTo(f, n - 1)
 RECURSIVE Reach(_, _)
@@ -107,9 +110,8 @@ Layout(I) ==
   IN [comp |-> comp, blk |-> blk, nres |-> nres, loc |-> loc, first |-> first]
 Comp(I, i) == Layout(I).comp[i]
 
-PBase(I) ==
-  LET L     == Layout(I)
-      firsts == {i \in Pos(I) : L.first[i] = i}
+PBaseL(I, L) ==
+  LET firsts == {i \in Pos(I) : L.first[i] = i}
       \* block atoms that make up residue i
       mine  == TLCEval([i \in Pos(I) |-> {a \in DOMAIN L.blk[i].atoms : L.blk[i].atoms[a].res = L.loc[i]}])
       nat   == TLCEval([i \in Pos(I) |-> Cardinality(mine[i])])
@@ -128,6 +130,8 @@ PBase(I) ==
       gattr  |-> TLCEval([i \in Pos(I) |-> {g \in 1..total : resOf[g] = i}]),
       blockOf |-> TLCEval([g \in 1..total |-> BlkName(I, resOf[g])])]
 
+PBase(I) == With(Layout(I), LAMBDA L : PBaseL(I, L))
+
 \* the inputs the property quantifies over (besides connectedness, which the generators guarantee)
 BlocksOK(ff) ==
   \A b \in DOMAIN ff.blocks : LET B == ff.blocks[b] IN
@@ -135,7 +139,7 @@ BlocksOK(ff) ==
         /\ \A a \in 1..(Len(B.atoms) - 1) : B.atoms[a].res <= B.atoms[a + 1].res                   \* atoms grouped by residue
 DomOK(I) ==
   /\ \A i \in Pos(I) : HasBlock(I, BlkName(I, i))
-  /\ LET L == Layout(I) IN
+  /\ \E L \in {Layout(I)} :
        \A i \in Pos(I) :
          IF IsFrag(I, i)
          THEN /\ Cardinality(L.comp[i]) % L.nres[i] = 0
@@ -184,9 +188,8 @@ ModEligible(I, s) == FM(I) # <<>> /\ I.rn[s.pos] \in ProteinNames /\ \E x \in DO
 
 \* PFinal: PBase, changed only where an applicable link or a selected modification names an atom or an interaction.
 \*  apps: the applicable (link, match) pairs in link order (computed by LinkApps, or as observed from the code in trace validation)
-PFinalWith(I, apps) ==
-  LET B == PBase(I)
-      nA == Len(B.atoms)
+PFinalB(I, B, apps) ==
+  LET nA == Len(B.atoms)
       R == UNION {ToSet(apps[j].rem) : j \in DOMAIN apps}
       \* attribute replaced by a link: the last application that names (atom, field) wins
       reps == UNION {{<<j, r>> : r \in DOMAIN apps[j].rep} : j \in DOMAIN apps}
@@ -227,8 +230,9 @@ PFinalWith(I, apps) ==
       gattr  |-> TLCEval([i \in Pos(I) |-> {RenumIdx(g, R) : g \in B.gattr[i] \ R}]),
       blockOf |-> TLCEval([x \in DOMAIN keep |-> B.blockOf[keep[x]]])]
 
-PLinkApps(I) == LET B == PBase(I) IN LinkApps(I, B.atoms, B.gattr)
-PFinal(I) == PFinalWith(I, TLCEval(PLinkApps(I)))
+PFinalWith(I, apps) == With(PBase(I), LAMBDA B : With(apps, LAMBDA ap : PFinalB(I, B, ap)))
+PLinkApps(I) == With(PBase(I), LAMBDA B : LinkApps(I, B.atoms, B.gattr))
+PFinal(I) == With(PBase(I), LAMBDA B : With(LinkApps(I, B.atoms, B.gattr), LAMBDA ap : PFinalB(I, B, ap)))
 
 (* ------------------------------------------------------------------ *)
 (* P-layer, C14                                                       *)
@@ -239,11 +243,12 @@ PairsOf(nA) == {{a, b} : a \in 1..nA, b \in 1..nA} \ {{a} : a \in 1..nA}
 NrexclOf(I, nm) == BlockNamed(I, nm).nrexcl
 \* excluded iff the bond-graph distance in the final molecule is within the distance prescribed by the block of one of the
 \* two atoms, or a block or link excludes the pair explicitly
-ExclP(I) ==
-  LET F == PFinal(I)  E == BondE(F.inters)  nA == Len(F.atoms)
+ExclPF(I, F) ==
+  LET E == BondE(F.inters)  nA == Len(F.atoms)
       e(g) == NrexclOf(I, F.blockOf[g])
       dist == {p \in PairsOf(nA) : \E a \in p : \E b \in p \ {a} : Within(E, a, b, MaxOf(e(a), e(b)))}
   IN dist \cup (Explicit(F.inters) \ {{a} : a \in 1..nA})
+ExclP(I) == With(PFinal(I), LAMBDA F : ExclPF(I, F))
 \* what a written molecule means: pairs within nrexcl bonds plus the listed pairs
 ExclEff(N, ints, nA) == {p \in PairsOf(nA) : \E a \in p : \E b \in p \ {a} : Within(BondE(ints), a, b, N)}
                         \cup (Explicit(ints) \ {{a} : a \in 1..nA})
@@ -365,10 +370,10 @@ Generated(A, E, N) ==
        /\ ~Within(E, a, b, N - 2)}
 ApplyLinks ==
   /\ pc = "links"
-  /\ LET I == inp
+  /\ \E apps \in {LinkApps(inp, atoms, gattr)} :
+     LET I == inp
          \* a residue whose 'graph' is empty makes the atom look-up of any link that reaches it fail with an IndexError
          idxErr == \E li \in DOMAIN FL(I) : \E m \in ResMatches(I, FL(I)[li]) : gattr[m[1]] = {} \/ gattr[m[2]] = {}
-         apps == TLCEval(LinkApps(I, atoms, gattr))
          A1 == ApplyReps(atoms, FlattenSeq([j \in DOMAIN apps |-> apps[j].rep]))
          R == UNION {ToSet(apps[j].rem) : j \in DOMAIN apps}
          lseq == FlattenSeq([j \in DOMAIN apps |-> apps[j].ints])
@@ -425,11 +430,11 @@ Spec == Init /\ [][Next]_vars
 (* ------------------------------------------------------------------ *)
 Strip(a) == [an |-> a.an, ty |-> a.ty, q |-> a.q, m |-> a.m, rn |-> a.rn, cg |-> a.cg, resid |-> a.resid]
 Keep == SelectSeq([g \in 1..Len(atoms) |-> g], LAMBDA g : g \notin removed)
-ProjAtoms == [x \in DOMAIN Keep |-> Strip(atoms[Keep[x]])]
+ProjAtoms == With(Keep, LAMBDA kp : TLCEval([x \in DOMAIN kp |-> Strip(atoms[kp[x]])]))
 \* with Dev.keepRemoved an interaction may still point at a removed atom: such an atom projects to index 0
 ProjInter(x) == [x EXCEPT !.at = [j \in DOMAIN x.at |-> IF x.at[j] \in removed THEN 0 ELSE RenumIdx(x.at[j], removed)]]
-ProjInters == [x \in DOMAIN inters |-> ProjInter(inters[x])]
-ProjGattr == [i \in Pos(inp) |-> {RenumIdx(g, removed) : g \in gattr[i]}]
+ProjInters == TLCEval([x \in DOMAIN inters |-> ProjInter(inters[x])])
+ProjGattr == TLCEval([i \in Pos(inp) |-> {RenumIdx(g, removed) : g \in gattr[i]}])
 IsGen(x) == x.ver = "gen"
 
 (* ------------------------------------------------------------------ *)
@@ -438,25 +443,26 @@ IsGen(x) == x.ver = "gen"
 \* C01: the final molecule is PFinal - every residue a verbatim, re-indexed copy of its block, each block interaction exactly
 \* once per copy, differences only where a link / modification names them ((i)-(v) of DESIGN 4.1)
 C01_Inv == (pc = "done") =>
-   LET F == PFinal(inp)  own == SelectSeq(ProjInters, LAMBDA x : ~IsGen(x)) IN
+   \E F \in {PFinal(inp)} : \E own \in {SelectSeq(ProjInters, LAMBDA x : ~IsGen(x))} :
      /\ err = ""
      /\ ProjAtoms = F.atoms
      /\ ToSet(own) = F.inters /\ Len(own) = Cardinality(F.inters)
      /\ ProjGattr = F.gattr
 \* after MapToMolecule alone (no link, no modification yet) the molecule is PBase
 Base_Inv == (pc = "links") =>
-   LET B == PBase(inp) IN
+   \E B \in {PBase(inp)} :
      /\ [g \in DOMAIN atoms |-> Strip(atoms[g])] = B.atoms
      /\ ToSet(inters) = B.inters /\ Len(inters) = B.ninters
      /\ medges = B.edges /\ gattr = B.gattr
 \* the atoms of residue i carry i's residue id and the residue ids increase along the molecule: every residue exactly once
 Layout_Inv == (pc = "done" /\ err = "") =>
-   /\ \A x \in 1..(Len(ProjAtoms) - 1) : ProjAtoms[x].resid <= ProjAtoms[x + 1].resid
-   /\ \A i \in Pos(inp) : \A g \in ProjGattr[i] : ProjAtoms[g].resid = Resid(inp, i)
+   \E PA \in {ProjAtoms} : \E PG \in {ProjGattr} :
+     /\ \A x \in 1..(Len(PA) - 1) : PA[x].resid <= PA[x + 1].resid
+     /\ \A i \in Pos(inp) : \A g \in PG[i] : PA[g].resid = Resid(inp, i)
 \* C14
 C14_Inv == (pc = "done") =>
    /\ err = ""
-   /\ ExclEff(molN, ToSet(ProjInters), Len(ProjAtoms)) = ExclP(inp)
+   /\ \E PI \in {ToSet(ProjInters)} : ExclEff(molN, PI, Len(ProjAtoms)) = ExclP(inp)
    /\ Uniform(inp) => /\ molN = CHOOSE x \in UsedNrexcl(inp) : TRUE
                       /\ ~\E x \in ToSet(ProjInters) : IsGen(x)
 \* non-vacuity helpers (must be violated): some behaviour reaches the interesting situations
